@@ -287,8 +287,7 @@ def run(repo, chk):
     lx = repo.find_class(LEXER, 'Lexeme')
     got = [n.target.id for n in lx.body if isinstance(n, ast.AnnAssign)]
     chk.expect(got == ['token', 'span'], 'C12.R6', 'Lexeme fields', f'{got}', LEXER)
-    md = repo.find_class(ASM, 'Metadata')
-    ys = [src(n.value) for n in ast.walk(md) if isinstance(n, ast.Yield)]
+    ys = [src(n.value) for m in repo.methods(ASM, 'Metadata').values() for n in ast.walk(m) if isinstance(n, ast.Yield)]
     chk.expect(ys == ["b'; ' + line.encode('utf-8')"], 'C12.R6', 'Metadata.lines', f'metadata must only produce comment lines: {ys}', ASM)
     lines_fn = repo.find_func(ASM, 'lines')
     t = src(lines_fn)
